@@ -11,7 +11,8 @@ RULE = ('exhaustive: every phased Pauli (i^k, string) and every ordered pair for
         'n=12 (n<=31 for index conversions) x phase, batch shapes (k,),(k,l), rand_pauli flags. Oracle: Pauli algebra on strings with the '
         'XY=iZ phase table and dense Kronecker matrices (n<=5). Non-trivial = phase != 1 or a Y present or batch ndim >= 2; distinct = '
         '(sub-check, n, string, phase) for enumerations, (n, phase, has_Y, batch shape) for generated cases.'
-        ' Batched arguments are also handed over Fortran-ordered / strided / read-only / with negative strides; at the edge of the index range (4^n-1, 4^n, 4^n+1, -1) an accepted index must come back from the inverse conversion.')
+        ' Batched arguments are also handed over Fortran-ordered / strided / read-only / with negative strides; at the edge of the index range (4^n-1, 4^n, 4^n+1, -1) an accepted index must come back from the inverse conversion.'
+        ' An operator object multiplied with itself; Hermiticity flags as np.bool_ and 0/1; sign arrays that broadcast against the batch; second-call clause for the integer conversions.')
 ASSUMPTIONS = ['dense matrices are compared exactly up to 1e-12 (entries are in {0,+-1,+-i})',
                'index conversions are exercised up to n=31 (index < 4^31) as the statement bounds them']
 
